@@ -168,4 +168,9 @@ def run(src, tier, seed):
     else:
         res.bad(r, 'pivot-polarity-convention', fx.loc(bp[0]), 'the proof-graph builder no longer orders the antecedents by the sign of the pivot occurrence: the ab rule and the assumed-literal rule '
                 'read the first antecedent as the one with the positive pivot')
+    # ---- incremental use: popped partitions leave the masks (shared with C06)
+    import C06
+    r = res.rule('popped-partitions-invalidated', 'MainSolver::pop clears the partition bits of the popped assertions on every successful path while partitions are tracked (B is computed as the '
+                 'complement of the A-mask, so a stale bit turns an A-local symbol into a shared one)', floor=1)
+    C06.pop_invalidates(fx, res, r)
     return res
